@@ -1,16 +1,17 @@
 import StoneVerif.Model.FeParams
 /-!
-# Type instantiation (Model/FeParams): accepted = legal outside four holes; the only crash is `List` lengths
+# Type instantiation (Model/FeParams): accepted = legal outside two holes; nothing but the spec error escapes
 
 * `legal_accepted`: a legal argument list (`legalArgs`, from the "Basic Types" table) is never refused (full strength).
 * `ok_imp_legal_partial`, `instantiate_ok_iff_legal_partial`, `resolveBuiltin_ok_iff_legalRef_partial`:
-  conversely an accepted argument list is legal -- *partial*: inputs that hit one of the four holes
-  (`hitsHole`: a literal as `List` / `Map` element type, a float as `List` length, a falsy non-string `String`
-  pattern, a bound beyond the other end of the width) are excluded; `hole_*` show that each hole is real and
-  `instantiate_ok_iff_legal_fails` that the unrestricted equivalence is false.
-* `instantiate_crash_typeError`, `instantiate_no_crash_partial`: the only exception other than `InvalidSpec` is the
-  `TypeError` of `List.__init__` on a non-numeric `min_items` / `max_items` (`hitsListLengthCrash`) -- *partial*:
-  those inputs are excluded; `crash_*` are witnesses and `instantiate_no_crash_fails` the negated full statement.
+  conversely an accepted argument list is legal -- *partial*: inputs that hit one of the two remaining holes
+  (`hitsHole`: a falsy non-string `String` pattern, a bound beyond the other end of the width) are excluded;
+  `hole_*` show that each hole is real and `instantiate_ok_iff_legal_fails` that the unrestricted equivalence is
+  false.  The former holes (a literal as `List` / `Map` element type, a non-integral `List` length) are closed:
+  `list_literal_refused`, `map_value_literal_refused`, `list_float_length_refused`.
+* `instantiate_no_crash`, `resolveBuiltin_no_crash` (full strength): type instantiation ends in a type or in the
+  spec error; in particular the constructor is never called with the wrong number of arguments.  The former crash
+  site is closed: `list_min_items_str_refused`.
 * `initSig_table`, `builtinTypes_table`, `intLimits_table`, `floatLimits_table`, `optional_matches_signature`,
   `required_matches_signature`: the extracted tables are what the proofs assume.
 -/
@@ -244,36 +245,6 @@ theorem patternArg_some_ok_iff {rx p r} : patternArg rx (some p) = .ok r ↔
   · cases p <;> simp [bad]
     split <;> simp <;> grind
 
-theorem integral_num {a : Arg} {v : Int} (h : a.integral? = some v) : a.num? = some (.i v) ∧ a.truthy = (v != 0) := by
-  cases a <;> simp_all [Arg.integral?, Arg.num?, Arg.truthy]
-  all_goals grind
-
-@[local simp] theorem Num.lt_i_i (a b : Int) : Num.lt (.i a) (.i b) = decide (a < b) := by
-  simp [Num.lt, Num.toF, FVal.lt]
-
-theorem pyLt_ok_iff {a b r} : pyLt a b = .ok r ↔ ∃ x y, a.num? = some x ∧ b.num? = some y ∧ r = x.lt y := by
-  unfold pyLt
-  cases a.num? <;> cases b.num? <;> simp
-  exact eq_comm
-
-theorem pyLt_error_iff {a b e} : pyLt a b = .error e ↔ (a.num? = none ∨ b.num? = none) ∧ e = .crash .typeError := by
-  unfold pyLt
-  cases a.num? <;> cases b.num? <;> simp <;> exact eq_comm
-
-@[local simp] theorem itemsBound_none {l} : itemsBound l none = .ok () := rfl
-
-theorem itemsBound_some_ok_iff {l a} : itemsBound l (some a) = .ok () ↔
-    ∃ n, a.num? = some n ∧ n.lt (.i l) = false := by
-  simp only [itemsBound, bind_ok_iff, pyLt_ok_iff]
-  constructor
-  · rintro ⟨lt, ⟨x, y, hx, hy, rfl⟩, h⟩
-    simp [Arg.num?] at hy
-    subst hy
-    refine ⟨x, hx, ?_⟩
-    cases hlt : x.lt (.i l) <;> simp_all [bad]
-  · rintro ⟨n, hn, h⟩
-    exact ⟨false, ⟨n, .i l, hn, rfl, h.symm⟩, by simp⟩
-
 /-! ## legal implies accepted -/
 
 example : legalArgs (fun _ => true) .list [.ty false] [("min_items", .int 1), ("max_items", .int 1)] = true := by
@@ -318,9 +289,9 @@ theorem legal_accepted (rx : String → Bool) (_hrx : rx "" = true) (k pos kw)
   case map =>
     simp only [required, allAdmit_cons_iff, allAdmit_nil_iff] at h2
     obtain ⟨a, _, rfl, ha, b, _, rfl, hb, rfl⟩ := h2
-    simp only [ArgKind.admits, beq_iff_eq] at ha
+    simp only [ArgKind.admits, beq_iff_eq] at ha hb
     subst ha
-    simp [construct]
+    simp [construct, hb]
   case string =>
     simp only [required, allAdmit_nil_iff] at h2
     subst h2
@@ -349,38 +320,25 @@ theorem legal_accepted (rx : String → Bool) (_hrx : rx "" = true) (k pos kw)
   case list =>
     simp only [required, allAdmit_cons_iff, allAdmit_nil_iff] at h2
     obtain ⟨a, _, rfl, ha, rfl⟩ := h2
+    simp only [ArgKind.admits] at ha
     simp only [optional, List.all_cons, List.all_nil, Bool.and_true, Bool.and_eq_true] at h4
     obtain ⟨h4a, h4b⟩ := h4
-    simp only [construct, lengthsOrdered] at h5 ⊢
+    simp only [construct, lengthsOrdered, ha, Bool.not_true, Bool.false_eq_true, if_false] at h5 ⊢
     generalize List.lookup "min_items" kw = omin at *
     generalize List.lookup "max_items" kw = omax at *
-    have hmn : itemsBound 0 omin = .ok () := by
-      cases omin with
-      | none => rfl
-      | some a =>
-        obtain ⟨v, hv, hle⟩ := admits_length_iff.1 h4a
-        exact itemsBound_some_ok_iff.2 ⟨.i v, (integral_num hv).1, by simp; omega⟩
-    have hmx : itemsBound 1 omax = .ok () := by
-      cases omax with
-      | none => rfl
-      | some a =>
-        obtain ⟨v, hv, hle⟩ := admits_length_iff.1 h4b
-        exact itemsBound_some_ok_iff.2 ⟨.i v, (integral_num hv).1, by simp; omega⟩
-    rw [hmn, hmx]
+    have hmn : ∃ mn, lenBound 0 omin = .ok mn ∧ mn = omin.bind Arg.integral? := by
+      cases omin <;> simp_all [lenBound_some_ok_iff, admits_length_iff] <;> grind
+    have hmx : ∃ mx, lenBound 1 omax = .ok mx ∧ mx = omax.bind Arg.integral? := by
+      cases omax <;> simp_all [lenBound_some_ok_iff, admits_length_iff] <;> grind
+    obtain ⟨mn, e1, rfl⟩ := hmn
+    obtain ⟨mx, e2, rfl⟩ := hmx
+    rw [e1, e2]
     simp only [ok_bind]
-    cases omin with
-    | none => simp [optTruthy]
-    | some a =>
-      cases omax with
-      | none => simp [optTruthy]
-      | some b =>
-        obtain ⟨va, hva, hla⟩ := admits_length_iff.1 h4a
-        obtain ⟨vb, hvb, hlb⟩ := admits_length_iff.1 h4b
-        have hlt : pyLt b a = .ok false :=
-          pyLt_ok_iff.2 ⟨.i vb, .i va, (integral_num hvb).1, (integral_num hva).1, by
-            simp [hva, hvb] at h5 ⊢; omega⟩
-        simp only [Option.getD_some, hlt, ok_bind]
-        split <;> simp
+    have hc : (optIntTruthy (omin.bind Arg.integral?) && optIntTruthy (omax.bind Arg.integral?) &&
+        decide ((omax.bind Arg.integral?).getD 0 < (omin.bind Arg.integral?).getD 0)) = false := by
+      cases ha : omin.bind Arg.integral? <;> cases hb : omax.bind Arg.integral? <;>
+        simp_all [optIntTruthy]
+    simp [hc]
 
 theorem length_eq_two {α} {l : List α} (h : l.length = 0 + 1 + 1) : ∃ a b, l = [a, b] := by
   match l, h with
@@ -428,70 +386,53 @@ theorem string_ok_facts {rx : String → Bool} {kw t} (hrx : rx "" = true)
         simp [hv, hw]
         omega
 
-theorem num_integral {a : Arg} {n : Num} (hn : a.num? = some n)
-    (hi : (a.num?.isSome && a.integral?.isNone) = false) : ∃ v, a.integral? = some v ∧ n = .i v := by
-  cases a <;> simp_all [Arg.integral?, Arg.num?]
-
-theorem list_len_admits {rx : String → Bool} {l : Int} {x : Arg} (hb : itemsBound l (some x) = .ok ())
-    (hi : (x.num?.isSome && x.integral?.isNone) = false) : (ArgKind.length l).admits rx x = true := by
-  obtain ⟨n, hn, hlt⟩ := itemsBound_some_ok_iff.1 hb
-  obtain ⟨v, hv, rfl⟩ := num_integral hn hi
-  exact admits_length_iff.2 ⟨v, hv, by simpa using hlt⟩
-
-theorem list_ok_facts {rx : String → Bool} {a kw t}
-    (hc : construct rx .list [a] kw = .ok t) (hh : holeFloatLength .list kw = false) :
+theorem list_ok_facts {rx : String → Bool} {a kw t} (hc : construct rx .list [a] kw = .ok t) :
+    a.isTy = true ∧
     (∀ x, kw.lookup "min_items" = some x → (ArgKind.length 0).admits rx x = true) ∧
     (∀ x, kw.lookup "max_items" = some x → (ArgKind.length 1).admits rx x = true) ∧
     lengthsOrdered kw "min_items" "max_items" = true := by
-  simp only [construct, bind_ok_iff] at hc
-  obtain ⟨_, hmn, _, hmx, hc⟩ := hc
-  simp only [holeFloatLength, beq_self_eq_true, Bool.true_and, List.any_cons, List.any_nil, Bool.or_false,
-    Bool.or_eq_false_iff] at hh
-  obtain ⟨hh1, hh2⟩ := hh
+  simp only [construct] at hc
+  split at hc
+  · simp [bad] at hc
+  rename_i hty
+  simp only [bind_ok_iff] at hc
+  obtain ⟨mn, hmn, mx, hmx, hc⟩ := hc
+  split at hc
+  · simp [bad] at hc
+  rename_i hcond
   simp only [lengthsOrdered]
   generalize List.lookup "min_items" kw = omin at *
   generalize List.lookup "max_items" kw = omax at *
-  have f1 : ∀ x, omin = some x → (ArgKind.length 0).admits rx x = true := by
-    rintro x rfl
-    exact list_len_admits hmn hh1
-  have f2 : ∀ x, omax = some x → (ArgKind.length 1).admits rx x = true := by
-    rintro x rfl
-    exact list_len_admits hmx hh2
-  refine ⟨f1, f2, ?_⟩
-  cases omin with
-  | none => simp
-  | some x =>
-    cases omax with
-    | none => cases x.integral? <;> simp
-    | some y =>
-      obtain ⟨v, hv, hle⟩ := admits_length_iff.1 (f1 x rfl)
-      obtain ⟨w, hw, hle'⟩ := admits_length_iff.1 (f2 y rfl)
-      simp only [Option.bind_some, hv, hw, decide_eq_true_eq]
-      by_cases hv0 : v = 0
-      · omega
-      · have t1 : x.truthy = true := by simp [(integral_num hv).2, hv0]
-        have t2 : y.truthy = true := by simp [(integral_num hw).2]; omega
-        simp only [optTruthy, t1, t2, Bool.and_self, if_true, Option.getD_some, bind_ok_iff, pyLt_ok_iff] at hc
-        obtain ⟨lt, ⟨n, m, hn, hm, rfl⟩, hc⟩ := hc
-        rw [(integral_num hv).1] at hm
-        rw [(integral_num hw).1] at hn
-        cases hn; cases hm
-        split at hc
-        · simp [bad] at hc
-        · rename_i hlt
-          simpa using hlt
+  refine ⟨by simpa using hty, ?_, ?_, ?_⟩
+  · rintro x rfl
+    obtain ⟨v, hv, hle, -⟩ := lenBound_some_ok_iff.1 hmn
+    exact admits_length_iff.2 ⟨v, hv, hle⟩
+  · rintro x rfl
+    obtain ⟨v, hv, hle, -⟩ := lenBound_some_ok_iff.1 hmx
+    exact admits_length_iff.2 ⟨v, hv, hle⟩
+  · cases omin with
+    | none => simp
+    | some x =>
+      cases omax with
+      | none => cases x.integral? <;> simp
+      | some y =>
+        obtain ⟨v, hv, hle, rfl⟩ := lenBound_some_ok_iff.1 hmn
+        obtain ⟨w, hw, hle', rfl⟩ := lenBound_some_ok_iff.1 hmx
+        simp [optIntTruthy] at hcond
+        simp [hv, hw]
+        omega
 
 /-! ## accepted implies legal, outside the holes -/
 
-/-- An accepted argument list is legal. Partial: argument lists that hit one of the four holes (`hitsHole`) are
+/-- An accepted argument list is legal. Partial: argument lists that hit one of the two holes (`hitsHole`) are
 excluded -- there the implementation accepts illegal arguments (`hole_*` below). `hrx`: the empty pattern, which
 `String.__init__` never compiles (`if pattern:`), is a regular expression. -/
 theorem ok_imp_legal_partial (rx : String → Bool) (hrx : rx "" = true) (k pos kw)
-    (hh : hitsHole k pos kw = false) (t) (h : instantiate rx k pos kw = .ok t) :
+    (hh : hitsHole k kw = false) (t) (h : instantiate rx k pos kw = .ok t) :
     legalArgs rx k pos kw = true := by
   obtain ⟨h1, h2, h3, hc⟩ := instantiate_not_specerr h (by simp)
   simp only [hitsHole, Bool.or_eq_false_iff] at hh
-  obtain ⟨⟨⟨hh1, hh2⟩, hh3⟩, hh4⟩ := hh
+  obtain ⟨hh3, hh4⟩ := hh
   simp only [legalArgs, Bool.and_eq_true]
   refine ⟨⟨⟨⟨h1, ?_⟩, h3⟩, ?_⟩, ?_⟩
   all_goals cases k
@@ -508,13 +449,12 @@ theorem ok_imp_legal_partial (rx : String → Bool) (hrx : rx "" = true) (k pos 
     cases a <;> simp_all [construct, allAdmit, required, ArgKind.admits, Arg.isStr, bad]
   case refine_1.map =>
     obtain ⟨a, b, rfl⟩ := length_eq_two h2
-    simp only [holeElemNotType, Bool.not_eq_false'] at hh1
     rcases a with _ | _ | _ | _ | _ | (_ | _) <;>
       simp_all [construct, allAdmit, required, ArgKind.admits, bad]
+    cases hb : b.isTy <;> simp_all
   case refine_1.list =>
     obtain ⟨a, rfl⟩ := List.length_eq_one_iff.1 h2
-    simp only [holeElemNotType, Bool.not_eq_false'] at hh1
-    simp [allAdmit, required, ArgKind.admits, hh1]
+    simp [allAdmit, required, ArgKind.admits, (list_ok_facts hc).1]
   case refine_2.int32 | refine_2.int64 | refine_2.uint32 | refine_2.uint64 =>
     simp only [required, List.length_nil, List.length_eq_zero_iff] at h2
     subst h2
@@ -569,61 +509,57 @@ theorem ok_imp_legal_partial (rx : String → Bool) (hrx : rx "" = true) (k pos 
     exact (string_ok_facts hrx hc hh3).2.2.2
   case refine_2.list =>
     obtain ⟨a, rfl⟩ := List.length_eq_one_iff.1 h2
-    obtain ⟨f1, f2, -⟩ := list_ok_facts hc hh2
+    obtain ⟨-, f1, f2, -⟩ := list_ok_facts hc
     simp only [optional, List.all_cons, List.all_nil, Bool.and_true, Bool.and_eq_true]
     generalize List.lookup "min_items" kw = omin at *
     generalize List.lookup "max_items" kw = omax at *
     cases omin <;> cases omax <;> simp_all
   case refine_3.list =>
     obtain ⟨a, rfl⟩ := List.length_eq_one_iff.1 h2
-    exact (list_ok_facts hc hh2).2.2
+    exact (list_ok_facts hc).2.2.2
 
-example : hitsHole .string [] [("min_length", .int 1), ("max_length", .int 5)] = false ∧
+example : hitsHole .string [("min_length", .int 1), ("max_length", .int 5)] = false ∧
     legalArgs (fun _ => true) .string [] [("min_length", .int 1), ("max_length", .int 5)] = true := by decide
 
-/-- accepted = legal. Partial: outside the four holes only (`instantiate_ok_iff_legal_fails`). -/
+/-- accepted = legal. Partial: outside the two holes only (`instantiate_ok_iff_legal_fails`). -/
 theorem instantiate_ok_iff_legal_partial (rx : String → Bool) (hrx : rx "" = true) (k pos kw)
-    (hh : hitsHole k pos kw = false) :
+    (hh : hitsHole k kw = false) :
     (∃ t, instantiate rx k pos kw = .ok t) ↔ legalArgs rx k pos kw = true :=
   ⟨fun ⟨t, h⟩ => ok_imp_legal_partial rx hrx k pos kw hh t h, legal_accepted rx hrx k pos kw⟩
 
-/-- the same for a reference `K(args)` / `K(args)?` (`Void?` refused). Partial: outside the four holes only. -/
+/-- the same for a reference `K(args)` / `K(args)?` (`Void?` refused). Partial: outside the two holes only. -/
 theorem resolveBuiltin_ok_iff_legalRef_partial (rx : String → Bool) (hrx : rx "" = true) (k pos kw)
-    (nullable : Bool) (hh : hitsHole k pos kw = false) :
+    (nullable : Bool) (hh : hitsHole k kw = false) :
     (∃ r, resolveBuiltin rx k pos kw nullable = .ok r) ↔ legalRef rx k pos kw nullable = true := by
   unfold resolveBuiltin legalRef
   cases hv : (k == TyKind.void && nullable)
   · cases nullable <;> simp [bind_ok_iff, ← instantiate_ok_iff_legal_partial rx hrx k pos kw hh]
   · simp
 
-example : hitsHole .list [.ty false] [("min_items", .bool false)] = false ∧
+example : hitsHole .list [("min_items", .bool false)] = false ∧
     legalRef (fun _ => true) .list [.ty false] [("min_items", .bool false)] true = true := by decide
 
-/-! ## The four holes are real: accepted although illegal -/
+/-- `List`, `Map`, `Timestamp`, `Bytes`, `Boolean`, `Void` have no hole: there acceptance = legality outright. -/
+theorem instantiate_ok_iff_legal_of_kind (rx : String → Bool) (hrx : rx "" = true) (k pos kw)
+    (hk : k = .list ∨ k = .map ∨ k = .timestamp ∨ k = .bytes ∨ k = .boolean ∨ k = .void) :
+    (∃ t, instantiate rx k pos kw = .ok t) ↔ legalArgs rx k pos kw = true := by
+  apply instantiate_ok_iff_legal_partial rx hrx
+  rcases hk with rfl | rfl | rfl | rfl | rfl | rfl <;> simp [hitsHole, holeFalsyPattern, holeFarSide]
+
+/-! ## The two remaining holes are real: accepted although illegal -/
 
 section holes
 local notation "anyRx" => (fun _ : String => true)
-
-/-- H1, `List(3)` -/
-theorem hole_list_literal :
-    instantiate anyRx .list [.int 3] [] = .ok (.list (.int 3) none none) ∧
-    legalArgs anyRx .list [.int 3] [] = false := by decide
-
-/-- H1, `Map(String, 3)` -/
-theorem hole_map_value_literal :
-    instantiate anyRx .map [.ty true, .int 3] [] = .ok (.map (.ty true) (.int 3)) ∧
-    legalArgs anyRx .map [.ty true, .int 3] [] = false := by decide
-
-/-- H2, `List(String, min_items=1.5)` -/
-theorem hole_list_float_length :
-    instantiate anyRx .list [.ty true] [("min_items", .float (.fin 3 2))] =
-      .ok (.list (.ty true) (some (.float (.fin 3 2))) none) ∧
-    legalArgs anyRx .list [.ty true] [("min_items", .float (.fin 3 2))] = false := by decide
 
 /-- H3, `String(pattern=0)` -/
 theorem hole_string_falsy_pattern :
     instantiate anyRx .string [] [("pattern", .int 0)] = .ok (.string none none (some (.int 0))) ∧
     legalArgs anyRx .string [] [("pattern", .int 0)] = false := by decide
+
+/-- H3, `String(pattern=false)` -/
+theorem hole_string_false_pattern :
+    instantiate anyRx .string [] [("pattern", .bool false)] = .ok (.string none none (some (.bool false))) ∧
+    legalArgs anyRx .string [] [("pattern", .bool false)] = false := by decide
 
 /-- H4, `Int32(min_value=2147483648)` -/
 theorem hole_int_min_above_maximum :
@@ -643,21 +579,45 @@ theorem hole_float32_min_above_maximum :
 
 /-- each witness lies in the hole it is named after -/
 theorem hole_witnesses_hit :
-    holeElemNotType .list [.int 3] = true ∧ holeElemNotType .map [.ty true, .int 3] = true ∧
-    holeFloatLength .list [("min_items", .float (.fin 3 2))] = true ∧
     holeFalsyPattern .string [("pattern", .int 0)] = true ∧
+    holeFalsyPattern .string [("pattern", .bool false)] = true ∧
     holeFarSide .int32 [("min_value", .int 2147483648)] = true ∧
     holeFarSide .uint32 [("max_value", .int (-1))] = true ∧
     holeFarSide .float32 [("min_value", .float (.fin (10 ^ 39) 1))] = true := by decide
 
+/-! ### Regression: the repaired holes and the repaired crash site are spec errors now -/
+
+/-- `List(3)` (was accepted) -/
+theorem list_literal_refused :
+    instantiate anyRx .list [.int 3] [] = .error (.specerr .badArgument) := by decide
+
+/-- `Map(String, 3)` (was accepted) -/
+theorem map_value_literal_refused :
+    instantiate anyRx .map [.ty true, .int 3] [] = .error (.specerr .badArgument) := by decide
+
+/-- `List(String, min_items=1.5)` (was accepted) -/
+theorem list_float_length_refused :
+    instantiate anyRx .list [.ty true] [("min_items", .float (.fin 3 2))] = .error (.specerr .badArgument) := by
+  decide
+
+/-- `List(String, min_items="a")`, `min_items=null`, `max_items=Int32` (were `TypeError`s) -/
+theorem list_min_items_str_refused :
+    instantiate anyRx .list [.ty true] [("min_items", .str "a")] = .error (.specerr .badArgument) ∧
+    instantiate anyRx .list [.ty true] [("min_items", .null)] = .error (.specerr .badArgument) ∧
+    instantiate anyRx .list [.ty true] [("max_items", .ty false)] = .error (.specerr .badArgument) := by decide
+
+/-- booleans still pass as lengths, as for `String` (not judged: the language reference is silent) -/
+example : instantiate anyRx .list [.ty true] [("min_items", .bool true)] = .ok (.list (.ty true) (some 1) none) := by
+  decide
+
 end holes
 
-/-- the equivalence without the hole exclusion is false (`List(3)`) -/
+/-- the equivalence without the hole exclusion is false (`String(pattern=0)`) -/
 theorem instantiate_ok_iff_legal_fails :
     ¬ ∀ (rx : String → Bool) k pos kw, ((∃ t, instantiate rx k pos kw = .ok t) ↔ legalArgs rx k pos kw = true) := by
   intro h
-  have h1 := (h (fun _ => true) .list [.int 3] []).1 ⟨_, hole_list_literal.1⟩
-  rw [hole_list_literal.2] at h1
+  have h1 := (h (fun _ => true) .string [] [("pattern", .int 0)]).1 ⟨_, hole_string_falsy_pattern.1⟩
+  rw [hole_string_falsy_pattern.2] at h1
   cases h1
 
 /-! ## Crash layer -/
@@ -701,22 +661,10 @@ theorem instantiate_ok_iff_legal_fails :
     · cases a <;> simp
       split <;> simp
 
-theorem itemsBound_crash {l oa e} (h : itemsBound l oa = .error (.crash e)) :
-    e = .typeError ∧ ∃ a, oa = some a ∧ a.num? = none := by
-  cases oa with
-  | none => simp at h
-  | some a =>
-    simp only [itemsBound, bind_error_iff, pyLt_error_iff, pyLt_ok_iff] at h
-    rcases h with ⟨h, he⟩ | ⟨lt, -, h⟩
-    · simp only [Arg.num?, reduceCtorEq, or_false] at h
-      cases he
-      exact ⟨rfl, a, rfl, h⟩
-    · split at h <;> simp [bad] at h
-
-/-- every crash of the constructor call (after the positional bookkeeping) is the `TypeError` of `List.__init__` -/
-theorem construct_crash {rx k pos kw e} (h2 : pos.length = (required k).length)
-    (hc : construct rx k pos kw = .error (.crash e)) :
-    e = .typeError ∧ k = .list ∧ hitsListLengthCrash k kw = true := by
+/-- the constructor call, once the number of positional arguments is right, raises nothing but `ParameterError` -/
+theorem construct_no_crash {rx k pos kw e} (h2 : pos.length = (required k).length) :
+    construct rx k pos kw ≠ .error (.crash e) := by
+  intro hc
   cases k
   case bytes | boolean | void | int32 | int64 | uint32 | uint64 | float32 | float64 =>
     simp only [required, List.length_nil, List.length_eq_zero_iff] at h2
@@ -736,73 +684,35 @@ theorem construct_crash {rx k pos kw e} (h2 : pos.length = (required k).length)
   case map =>
     obtain ⟨a, b, rfl⟩ := length_eq_two h2
     rcases a with _ | _ | _ | _ | _ | (_ | _) <;> simp [construct, bad] at hc
+    split at hc <;> simp at hc
   case list =>
     obtain ⟨a, rfl⟩ := List.length_eq_one_iff.1 h2
-    simp only [construct, bind_error_iff] at hc
-    simp only [hitsListLengthCrash, beq_self_eq_true, Bool.true_and, List.any_cons, List.any_nil, Bool.or_false,
-      Bool.or_eq_true]
-    generalize List.lookup "min_items" kw = omin at *
-    generalize List.lookup "max_items" kw = omax at *
-    rcases hc with hc | ⟨_, hmn, hc | ⟨_, hmx, hc⟩⟩
-    · obtain ⟨rfl, x, rfl, hx⟩ := itemsBound_crash hc
-      simp [hx]
-    · obtain ⟨rfl, x, rfl, hx⟩ := itemsBound_crash hc
-      simp [hx]
-    · split at hc
-      · rename_i ht
-        cases omin with
-        | none => simp [optTruthy] at ht
-        | some x =>
-          cases omax with
-          | none => simp [optTruthy] at ht
-          | some y =>
-            simp only [Option.getD_some, bind_error_iff, pyLt_error_iff, pyLt_ok_iff] at hc
-            rcases hc with ⟨hn, he⟩ | ⟨lt, -, hc⟩
-            · cases he
-              rcases hn with hn | hn <;> simp [hn]
-            · split at hc <;> simp [bad] at hc
-      · simp at hc
+    simp only [construct] at hc
+    split at hc
+    · simp [bad] at hc
+    simp only [bind_error_iff, lenBound_ne_crash, false_or] at hc
+    obtain ⟨_, -, _, -, hc⟩ := hc
+    split at hc <;> simp [bad] at hc
 
-/-- Whatever is raised besides `InvalidSpec` is a `TypeError`, and only from `List`. -/
-theorem instantiate_crash_typeError (rx : String → Bool) (k pos kw e)
-    (h : instantiate rx k pos kw = .error (.crash e)) : e = .typeError ∧ k = .list := by
-  obtain ⟨-, h2, -, hc⟩ := instantiate_not_specerr h (by simp)
-  exact ⟨(construct_crash h2 hc).1, (construct_crash h2 hc).2.1⟩
-
-/-- Only `InvalidSpec` escapes. Partial: `List` with a non-numeric `min_items` / `max_items`
-(`hitsListLengthCrash`) is excluded -- there `<` raises `TypeError` (`crash_*` below). -/
-theorem instantiate_no_crash_partial (rx : String → Bool) (k pos kw)
-    (h : hitsListLengthCrash k kw = false) : ∀ e, instantiate rx k pos kw ≠ .error (.crash e) := by
+/-- **C03 (full strength).** Only `InvalidSpec` escapes type instantiation: for every built-in type and every
+argument list the result is a type or the spec error.  (The model's only non-spec error is the `TypeError` of calling
+a constructor with the wrong number of arguments; the bookkeeping of `_instantiate_data_type` excludes it.) -/
+theorem instantiate_no_crash (rx : String → Bool) (k pos kw) : ∀ e, instantiate rx k pos kw ≠ .error (.crash e) := by
   intro e he
   obtain ⟨-, h2, -, hc⟩ := instantiate_not_specerr he (by simp)
-  simp [(construct_crash h2 hc).2.2] at h
+  exact construct_no_crash h2 hc
 
-/-- `List(String, min_items="a")` -/
-theorem crash_list_min_items_str :
-    instantiate (fun _ => true) .list [.ty true] [("min_items", .str "a")] = .error (.crash .typeError) := by decide
+/-- without the positional bookkeeping the constructor call does fail otherwise (`List()`): the theorem above is
+not about a model that cannot crash -/
+example : construct (fun _ => true) .list [] [] = .error (.crash .typeError) := by decide
 
-/-- `List(String, min_items=null)` -/
-theorem crash_list_min_items_null :
-    instantiate (fun _ => true) .list [.ty true] [("min_items", .null)] = .error (.crash .typeError) := by decide
-
-/-- `List(String, max_items=Int32)` -/
-theorem crash_list_max_items_type :
-    instantiate (fun _ => true) .list [.ty true] [("max_items", .ty false)] = .error (.crash .typeError) := by decide
-
-/-- "nothing but `InvalidSpec` escapes" is false for type instantiation -/
-theorem instantiate_no_crash_fails :
-    ¬ ∀ (rx : String → Bool) k pos kw e, instantiate rx k pos kw ≠ .error (.crash e) :=
-  fun h => h _ _ _ _ _ crash_list_min_items_str
-
-example : hitsListLengthCrash .list [("min_items", .int 1), ("max_items", .float (.fin 5 2))] = false := by decide
-
-/-- the same for a reference. Partial: same exclusion. -/
-theorem resolveBuiltin_no_crash_partial (rx : String → Bool) (k pos kw) (nullable : Bool)
-    (h : hitsListLengthCrash k kw = false) : ∀ e, resolveBuiltin rx k pos kw nullable ≠ .error (.crash e) := by
+/-- the same for a reference `K(args)` / `K(args)?` -/
+theorem resolveBuiltin_no_crash (rx : String → Bool) (k pos kw) (nullable : Bool) :
+    ∀ e, resolveBuiltin rx k pos kw nullable ≠ .error (.crash e) := by
   intro e
   simp only [resolveBuiltin]
   split
   · simp
-  · simp [bind_error_iff, instantiate_no_crash_partial rx k pos kw h]
+  · simp [bind_error_iff, instantiate_no_crash rx k pos kw]
 
 end StoneVerif.FeParams
